@@ -109,6 +109,50 @@ def two_readers_oracle(ctx):
             shutil.rmtree(da, ignore_errors=True); shutil.rmtree(db, ignore_errors=True)
 
 
+def caller_edits_oracle(ctx):
+    """What a reader serves is what its archive holds, whatever callers did with tables served earlier: a table handed out is edited in place by
+    the caller (cells overwritten, rows dropped), the same request is made again of the same reader."""
+    import numpy as np
+    from syndiffix import SyndiffixBlobBuilder, SyndiffixBlobReader
+    R = ctx.rng
+    St = ctx.stream("O-caller-edits", "one reader (cache_df_in_memory on and off): read(cols) for stored and stitched column sets in stored and other orders, the caller overwrites "
+                    "cells and drops rows of the returned frame in place, the same request again: the second answer equals a deep copy of the first and a freshly opened "
+                    "reader's; non-trivial = every request")
+    for _ in range(ctx.scale(1, 5)):
+        n = R.choice([150, 250]); names = ["x", "y", "z"]
+        rs = np.random.RandomState(R.randrange(2**31))
+        df = pd.DataFrame({"x": rs.randint(0, 6, n), "y": rs.randint(0, 4, n) * 0.5, "z": [f"v{v}" for v in rs.randint(0, 5, n)]})
+        d = tempfile.mkdtemp(prefix="sdxblobE")
+        try:
+            with BS.quiet():
+                SyndiffixBlobBuilder("edits", d, max_cluster_size=R.choice([2, 3])).write(df)
+            for cache in (True, False):
+                with BS.quiet():
+                    reader = SyndiffixBlobReader("edits", d, cache_df_in_memory=cache)
+                for cols in (["x"], ["x", "y"], ["y", "x"], ["x", "y", "z"], ["z", "x"], ["z"]):
+                    with BS.quiet(): out = reader.read(list(cols))
+                    keep = out.copy(deep=True)
+                    St.count((repr(df.values.tolist()), cache, tuple(cols)), True, {"rows": n, "cache_df_in_memory": cache, "columns": cols})
+                    if len(out):
+                        # the caller's own business: overwrite every cell with the first row's, drop half of the rows, rename nothing
+                        try:
+                            for c in out.columns: out[c] = out[c].iloc[0]
+                            out.iloc[0, 0] = out.iloc[-1, 0]
+                            out.drop(index=out.index[: len(out) // 2], inplace=True)
+                        except Exception:
+                            pass
+                    with BS.quiet():
+                        again = reader.read(list(cols))
+                        fresh = SyndiffixBlobReader("edits", d, cache_df_in_memory=cache).read(list(cols))
+                    if not again.reset_index(drop=True).equals(keep.reset_index(drop=True)):
+                        ctx.oracle_fail(f"after the caller edited the table served for {cols} in place, the same reader serves an altered table for the same request "
+                                        f"(cache_df_in_memory={cache}): {len(again)} rows vs {len(keep)}", {"columns": cols, "cache_df_in_memory": cache}, "served-caller-edits")
+                    elif not fresh.reset_index(drop=True).equals(keep.reset_index(drop=True)):
+                        ctx.oracle_fail(f"a freshly opened reader serves another table for {cols} than the first reader did", {"columns": cols}, "fresh-differs")
+        finally:
+            shutil.rmtree(d, ignore_errors=True)
+
+
 def extraction(ctx):
     src = (REPO / "syndiffix" / "blob.py").read_text(); tree = ast.parse(src)
     bad = []
@@ -125,11 +169,12 @@ def run(ctx, built):
     BS.stream_two_names(ctx, built, ctx.scale(5, 60))
     content_oracle(ctx)
     two_readers_oracle(ctx)
+    caller_edits_oracle(ctx)
     extraction(ctx)
     # regression corpus: F6 (leftovers zipped / corrupt archive answered from leftovers) is covered by the histories b1 b2 / x o
 
 
 def search(ctx, seeds):
     sub = Ctx(ctx.pid, "quick", ctx.seed + 275604541)
-    BS.stream_histories(sub, False, 30); BS.stream_two_names(sub, False, 12); content_oracle(sub); two_readers_oracle(sub)
+    BS.stream_histories(sub, False, 30); BS.stream_two_names(sub, False, 12); content_oracle(sub); two_readers_oracle(sub); caller_edits_oracle(sub)
     ctx.oracle_failures += sub.oracle_failures
